@@ -8,7 +8,8 @@ set_permissions` — reported as kind `other`) is located in the function body a
   * it stands inside `if !dry_run { .. }`, or in the `else` block of `if dry_run { .. } else { .. }`, or
   * an `if dry_run { .. return .. }` at the top level of the function body precedes it.
 Also extracted: the `Commands::Search` arm of main.rs passes the literal `true` in the `dry_run` position of
-`handle_plan`; `rename.rs::detect_case_insensitive_fs` creates its probe through `TempDir::new_in` and never
+`handle_plan`; how `lock.rs::LockFile::acquire` publishes the lock file;
+`rename.rs::detect_case_insensitive_fs` creates its probe through `TempDir::new_in` and never
 persists it (`keep` / `into_path` / `forget`), and is called from the rename planner only.
 Raises if a function or the dry_run parameter cannot be found (broken tie)."""
 import os
@@ -160,6 +161,25 @@ def probe_facts(repo):
     return raii, sorted(set(callers))
 
 
+def lock_publish(repo):
+    """how LockFile::acquire makes the lock file appear: `tmpLink` = write `<lock>.<pid>.tmp`, fs::hard_link it to the lock
+    path, remove the tmp; `createNew` = OpenOptions::create_new + write_all on the lock path itself"""
+    text = blank(open(os.path.join(repo, "renamify-core/src/lock.rs")).read())
+    m = re.search(r"pub\s+fn\s+acquire\s*\(", text)
+    if not m:
+        raise Shape("lock.rs: LockFile::acquire not found")
+    o = text.find("{", match_brace(text, m.end() - 1))
+    body = text[o:match_brace(text, o)]
+    w = re.search(r"fs::write\s*\(\s*&\s*tmp_path", body)
+    l = re.search(r"fs::hard_link\s*\(\s*&\s*tmp_path\s*,\s*&\s*lock_path\s*\)", body)
+    r = re.search(r"remove_file\s*\(\s*&\s*tmp_path\s*\)", body)
+    if w and l and r and w.start() < l.start() < r.start() and not re.search(r"create_new", body):
+        return "tmpLink"
+    if re.search(r"create_new\s*\(\s*true\s*\)", body) and re.search(r"write_all\s*\(", body) and not l:
+        return "createNew"
+    raise Shape("lock.rs: LockFile::acquire publishes the lock file in a way the translator does not know")
+
+
 def extract():
     repo = common.REPO
     g = []
@@ -170,7 +190,8 @@ def extract():
         if not [x for x in g if x["op"] == op]:
             raise Shape(f"no write statement found in the {op} operation")
     raii, callers = probe_facts(repo)
-    return {"gates": g, "search_true": search_dry_run_literal(repo), "probe_raii": raii, "probe_callers": callers}
+    return {"gates": g, "search_true": search_dry_run_literal(repo), "probe_raii": raii, "probe_callers": callers,
+            "publish": lock_publish(repo)}
 
 
 def render(f):
@@ -195,6 +216,11 @@ def render(f):
         out.append(f"  {{ op := .{g['op']}, kind := .{g['kind']}, skippedByDryRun := {str(g['skipped']).lower()}, line := {g['line']} }}"
                    + ("," if i + 1 < len(f["gates"]) else "") + f"  -- {g['what']}")
     out += ["]", "",
+            "/-- how LockFile::acquire makes the lock file appear: tmpLink = write `<lock>.<pid>.tmp`, hard_link it to the lock path,",
+            "    remove the tmp (never visible incomplete); createNew = open(O_EXCL) the lock path and write into it -/",
+            "inductive LockPublish where | tmpLink | createNew",
+            "  deriving DecidableEq, Repr", "",
+            f"def lockPublish : LockPublish := .{f['publish']}", "",
             "/-- the `Commands::Search` arm passes the literal `true` for `dry_run` -/",
             f"def searchPassesDryRunTrue : Bool := {str(f['search_true']).lower()}", "",
             "/-- detect_case_insensitive_fs: TempDir::new_in, never persisted -/",
